@@ -1,6 +1,7 @@
 """C09-C12: WeakDom.tla model checking (A), history replay (B) and trace validation (C)."""
 import json
 import os
+import re
 import random
 import time
 
@@ -319,6 +320,19 @@ def uid_generator(rep, quick, seed):
     r3 = tlc("UniqueIdGen", cfg, workers=2, timeout=600)
     if "Invariant Distinct is violated" not in r3["out"]:
         raise ToolError("sanity: load/store variant of the counter not caught by TLC")
+    # unbounded companion, machine-checked by TLAPS: for any number of threads and calls (no wrap) the index
+    # handed out by the atomic fetch_add is fresh (spec/proofs/UniqueIdGenProof.tla)
+    import subprocess
+    pdir = os.path.join(os.path.dirname(os.path.dirname(os.path.abspath(__file__))), "spec", "proofs")
+    pr = subprocess.run(["timeout", "600", "tlapm", "--threads", "4", "--cleanfp", "UniqueIdGenProof.tla"], cwd=pdir,
+                        stdout=subprocess.PIPE, stderr=subprocess.STDOUT, text=True)
+    m = re.search(r"All (\d+) obligations? proved", pr.stdout)
+    if not m:
+        if re.search(r"obligations? failed", pr.stdout):
+            rep.violation("proof|UniqueIdGenProof", {"tlapm": pr.stdout[-3000:]}, "TLAPS could not prove UniqueIdGenProof.tla")
+        else:
+            raise ToolError("tlapm did not finish on UniqueIdGenProof.tla:\n" + pr.stdout[-2000:])
+    out["tlaps_obligations"] = int(m.group(1)) if m else 0
     threads, calls = (8, 4000) if quick else (16, 10000)
     trace = os.path.join(OUT, "C12_uid_trace.ndjson")
     rbxv(["uid-stress", "--threads", threads, "--calls", calls], stdout_path=trace)
